@@ -179,9 +179,9 @@ Print Assumptions C03_absorbed_pre_changes_position_seed.
 (* ------------------------------------------------------------------------------------------------ agreement with C04 *)
 
 (* The coin operations of this model are, operation for operation, the verifier transcript of C04's model
-   (Model/Transcript.v, T = VModel.Transcript), for every shape of that model, every list of FRI rows, every variant:
+   (Model/Transcript.v, T = VModel.Transcript), for every shape of that model without a Lagrange-kernel column (this model has no GKR step), every list of FRI rows, every variant:
    two hand-written models of the same code, tied to it by different correspondences, agree on their common part. *)
-Theorem C03_coin_projection_is_C04_transcript : forall (t : T.shape) rows uniq v,
+Theorem C03_coin_projection_is_C04_transcript : forall (t : T.shape) rows uniq v, T.sh_lagrange t = None ->
   flat_map (coin_ops (T.sh_ext_deg t) (T.sh_queries t)) (events v (shape_of t rows uniq)) = T.verifier t.
 Proof. exact coin_projection_is_transcript. Qed.
 Print Assumptions C03_coin_projection_is_C04_transcript.
